@@ -20,8 +20,13 @@ LEVEL = "exploration"
 RULE = ("histories of 2-8 requester threads x 1-6 tagged S2F25 requests against a scripted peer (reply policies: immediate, "
         "reversed batch, random permutation, drop, late after T3, duplicate) interleaved with bursts of up to 30 unsolicited "
         "primaries, over 1-5 close/reconnect/select cycles, under seeded yield injection; distinct by interleaving signature "
-        "and policy; non-trivial when at least two requests were outstanding simultaneously")
-ASSUMPTIONS = ["a reply that arrives after its requester timed out may be handed to the application as an ordinary message or be "
+        "and policy; non-trivial when at least two requests were outstanding simultaneously. SECS-I: histories of 2-6 "
+        "requester threads with single- and multi-block S2F25 requests all outstanding together over a scripted line peer, then "
+        "replies and unsolicited primaries (single/multi-block) in order / reversed / shuffled / with the blocks of different "
+        "messages interleaved / partly dropped, over 1-3 line close/reopen cycles, both device roles")
+ASSUMPTIONS = ["SECS-I histories keep the two directions in separate phases (only one side transmits at a time, as C17 assumes); "
+               "line contention is not produced",
+               "a reply that arrives after its requester timed out may be handed to the application as an ordinary message or be "
                "discarded; it must only never reach another requester", "wrap-around of the 32-bit transaction counter is not reached"]
 LEVEL_TEXT = ("Runtime history checking (unique tags, linear-time) of the real request/reply routing and delivery path under "
               "concurrent callers, hostile reply orders, reconnects and injected yields; interleavings are sampled and counted.")
@@ -30,7 +35,8 @@ TECHNIQUE = "offline history checker over recorded call/return/wire events under
 SHARDS = {"quick": 8, "thorough": 16}
 TIMEOUT = {"quick": 400, "thorough": 3400}
 FLOORS = {"histories.with_overlapping_requests": 50, "oracle.requests_checked": 500, "oracle.unsolicited_checked": 1000,
-          "reconnect.cycles": 10, "interleaving.distinct_signatures": 20}
+          "reconnect.cycles": 10, "interleaving.distinct_signatures": 20, "secsi.requests_checked": 200,
+          "secsi.rounds_with_interleaved_blocks": 10, "secsi.unsolicited_checked": 100}
 
 UNSOL_BASE = 0x70000000
 
@@ -310,6 +316,322 @@ def _history(ctx, inj, idx):
     return sig
 
 
+# --------------------------------------------------------------------------------------------------------------
+# SECS-I: the same routing (secsgem/common/protocol.py) behind the block transfer of secsgem/secsi/protocol.py
+# --------------------------------------------------------------------------------------------------------------
+class LinePeer:
+    """Scripted remote end of a SECS-I line. One thread: answers ENQ with EOT, checks and ACKs blocks, reassembles
+    messages per system bytes; on command sends blocks itself (ENQ, wait EOT, block, wait ACK). The harness keeps the
+    two directions in separate phases, so only one side transmits at a time (the line protocol itself is C17's)."""
+
+    def __init__(self, rig):
+        self.rig = rig
+        self.rx = queue.Queue()
+        self.cmd = queue.Queue()
+        self.lock = threading.Lock()
+        self.partial = {}          # system -> [(fields, data)]
+        self.complete = []         # (fields of first block, body, nblocks, generation) in completion order
+        self.bad_blocks = []
+        self.stray = []
+        self.contention = 0
+        self.sent_blocks = 0
+        self.naks = 0
+        self.stop = False
+        self.idle = threading.Event()
+        rig.pipe.on_send = self._on_send
+        self.thread = threading.Thread(target=stuck.harness_thread(self._run), daemon=True, name="harness-linepeer")
+        self.thread.start()
+
+    def _on_send(self, data, gen):
+        for b in data:
+            self.rx.put((b, gen))
+
+    def flush_rx(self):
+        while True:
+            try:
+                self.rx.get_nowait()
+            except queue.Empty:
+                return
+
+    def _byte(self, timeout):
+        try:
+            return self.rx.get(timeout=timeout)[0]
+        except queue.Empty:
+            return None
+
+    def _receive_block(self):
+        self.rig.pipe.feed(bytes([wire.EOT]))
+        length = self._byte(5.0)
+        if length is None:
+            self.stray.append("no length byte after EOT")
+            return
+        raw = bytearray([length])
+        for _ in range(length + 2):
+            b = self._byte(5.0)
+            if b is None:
+                self.stray.append("block shorter than its length byte")
+                return
+            raw.append(b)
+        parsed = wire.secs1_parse_block(bytes(raw))
+        if parsed is None:
+            self.bad_blocks.append(bytes(raw).hex()[:80])
+            self.rig.pipe.feed(bytes([wire.NAK]))
+            return
+        fields, data = parsed
+        with self.lock:
+            blocks = self.partial.setdefault(fields["system"], [])
+            blocks.append((fields, data))
+            if fields["ebit"]:
+                del self.partial[fields["system"]]
+                self.complete.append((blocks[0][0], b"".join(d for _, d in blocks), [f["block"] for f, _ in blocks],
+                                      self.rig.pipe.generation))
+        self.rig.pipe.feed(bytes([wire.ACK]))
+
+    def _send_block(self, raw):
+        self.rig.pipe.feed(bytes([wire.ENQ]))
+        while True:
+            b = self._byte(5.0)
+            if b is None:
+                self.stray.append("no EOT for the peer's ENQ")
+                return False
+            if b == wire.ENQ:
+                self.contention += 1      # both ends asked for the line; not produced by the phased workload
+                continue
+            break
+        if b != wire.EOT:
+            self.stray.append(f"expected EOT, got {b:#x}")
+            return False
+        self.rig.pipe.feed(raw)
+        b = self._byte(5.0)
+        self.sent_blocks += 1
+        if b != wire.ACK:
+            self.naks += 1
+            return False
+        return True
+
+    def _run(self):
+        while not self.stop:
+            try:
+                b, _ = self.rx.get(timeout=0.005)
+            except queue.Empty:
+                try:
+                    raws, done = self.cmd.get_nowait()
+                except queue.Empty:
+                    continue
+                ok = True
+                for raw in raws:
+                    if self.stop or not self.rig.pipe.link_up:
+                        ok = False
+                        break
+                    ok = self._send_block(raw) and ok
+                done.append(ok)
+                continue
+            if b == wire.ENQ:
+                self._receive_block()
+            else:
+                self.stray.append(f"unexpected byte {b:#x} while the line was idle")
+
+    def send_blocks(self, raws, timeout=30.0):
+        done = []
+        self.cmd.put((raws, done))
+        end = time.monotonic() + timeout
+        while time.monotonic() < end and not done:
+            time.sleep(0.001)
+        return bool(done and done[0])
+
+
+def _secsi_history(ctx, inj, idx):
+    import secsgem.common
+    import secsgem.secs.functions as F
+    from lib.secsirig import SecsIRig
+
+    rng = ctx.rng
+    host = rng.random() < 0.5
+    policy = rng.choice(["in-order", "reversed", "shuffled", "blocks-interleaved", "blocks-interleaved", "drop-some"])
+    t3 = 1.0 if policy == "drop-some" else 20.0
+    rig = SecsIRig(device_type=secsgem.common.DeviceType.HOST if host else secsgem.common.DeviceType.EQUIPMENT, t3=t3)
+    peer = LinePeer(rig)
+    in_callback = [0]
+    max_in_callback = [0]
+    cb_lock = threading.Lock()
+
+    def spy(data):
+        with cb_lock:
+            in_callback[0] += 1
+            max_in_callback[0] = max(max_in_callback[0], in_callback[0])
+        time.sleep(0.0003)
+        with cb_lock:
+            in_callback[0] -= 1
+    rig.protocol.events.message_received += spy
+    nthreads = rng.randint(2, 6)
+    cycles = rng.choice([1, 2, 3])
+    base = {"transport": "SECS-I", "role": "host" if host else "equipment", "policy": policy, "threads": nthreads, "cycles": cycles}
+    calls = []
+    calls_lock = threading.Lock()
+    tagc = itertools.count(1)
+    serialc = itertools.count(1)
+    seed = rng.getrandbits(32)
+    inj.begin(seed, p=rng.choice([0.05, 0.15, 0.3]))
+    unsol_sent = []          # systems in the order their last block was put on the line
+    replies = {}             # serial -> tag
+    dropped = set()
+    try:
+        for cyc in range(cycles):
+            n_before = len(peer.complete)
+
+            def requester(tid, size):
+                stuck.register_harness_thread()
+                tag = b"T" + tid.to_bytes(2, "big") + next(tagc).to_bytes(5, "big")
+                rec = {"tag": tag, "thread": tid, "size": size, "generation": rig.pipe.generation}
+                with calls_lock:
+                    calls.append(rec)
+                try:
+                    res = rig.protocol.send_and_waitfor_response(F.SecsS02F25(tag + bytes(size)))
+                    rec["result"] = None if res is None else {"system": res.header.system, "stream": res.header.stream,
+                                                              "function": res.header.function, "body": bytes(res.data)}
+                except Exception as exc:
+                    rec["exception"] = repr(exc)
+                rec["returned"] = True
+            sizes = [rng.choice([0, 0, 100, 236, 237, 500, 1200]) for _ in range(nthreads)]
+            ths = [threading.Thread(target=requester, args=(i, sizes[i]), daemon=True, name=f"harness-requester-{i}") for i in range(nthreads)]
+            for t in ths:
+                t.start()
+            # phase A: only the endpoint transmits; every request is outstanding until phase B
+            ok = rig.wait(lambda: len(peer.complete) - n_before >= nthreads, 20.0, min_idle=1.5)
+            if not ok:
+                rig.confirm_absent(lambda: len(peer.complete) - n_before >= nthreads)
+            reqs = peer.complete[n_before:]
+            if len(reqs) < nthreads:
+                if peer.stray or peer.bad_blocks:
+                    ctx.violation("secsi:request-blocks-malformed-on-the-line", {**base, "stray": peer.stray[:4], "bad_blocks": peer.bad_blocks[:2]})
+                else:
+                    ctx.violation("secsi:concurrent-requests-not-all-transmitted", {**base, "sent": nthreads, "arrived": len(reqs), "stacks": stuck.stacks(6)})
+                return
+            ctx.count("secsi.requests_outstanding_together", nthreads)
+            systems = [f["system"] for f, _, _, _ in reqs]
+            if len(set(systems)) != len(systems):
+                ctx.violation("secsi:duplicate-system-bytes-among-outstanding-requests", {**base, "systems": [hex(x) for x in systems]})
+            for f, body, blocknos, _ in reqs:
+                if blocknos != list(range(1, len(blocknos) + 1)):
+                    ctx.violation("secsi:blocks-of-one-message-out-of-order-on-the-line", {**base, "block_numbers": blocknos})
+                if len(blocknos) > 1:
+                    ctx.count("secsi.multi_block_requests")
+            # phase B: only the peer transmits: replies (policy order) and unsolicited primaries, blocks possibly interleaved
+            streams = []
+            for f, body, _, _ in reqs:
+                try:
+                    tag = bytes(e5ref.decode_all(body)[1])[:8]
+                except Exception:
+                    tag = b"?"
+                if policy == "drop-some" and rng.random() < 0.4:
+                    dropped.add(tag)
+                    continue
+                serial = next(serialc)
+                replies[serial] = tag
+                rbody = e5ref.encode(("B", tag + serial.to_bytes(4, "big") + bytes(rng.choice([0, 0, 250, 700]))))
+                streams.append([wire.secs1_block(wire.secs1_header(**h), d)
+                                for h, d in wire.secs1_split(0, not host, 2, False, 26, f["system"], rbody)])
+            from checks.c04 import _header_only
+            ho = _header_only()
+            for _ in range(rng.randint(0, 8)):
+                system = UNSOL_BASE + len(unsol_sent) + 1000 * idx + 17
+                st, fn = rng.choice(ho)
+                ubody = bytes(rng.choice([0, 0, 10, 300, 600]))
+                streams.append(("unsol", system, [wire.secs1_block(wire.secs1_header(**h), d)
+                                                  for h, d in wire.secs1_split(0, not host, st, False, fn, system, ubody)]))
+            if policy == "reversed":
+                streams.reverse()
+            elif policy != "in-order":
+                rng.shuffle(streams)
+            seqs = [(s[2] if isinstance(s, tuple) else s, s[1] if isinstance(s, tuple) else None) for s in streams]
+            order = []
+            if policy == "blocks-interleaved":
+                cursors = [0] * len(seqs)
+                live = [i for i in range(len(seqs))]
+                while live:
+                    i = rng.choice(live)
+                    blocks, usys = seqs[i]
+                    order.append((blocks[cursors[i]], usys if cursors[i] == len(blocks) - 1 else None))
+                    cursors[i] += 1
+                    if cursors[i] == len(blocks):
+                        live.remove(i)
+                ctx.count("secsi.rounds_with_interleaved_blocks")
+            else:
+                for blocks, usys in seqs:
+                    for k, b in enumerate(blocks):
+                        order.append((b, usys if k == len(blocks) - 1 else None))
+            for raw, usys in order:
+                if usys is not None:
+                    unsol_sent.append(usys)
+            if order and not peer.send_blocks([raw for raw, _ in order]):
+                ctx.violation("secsi:endpoint-does-not-accept-well-formed-blocks", {**base, "stray": peer.stray[:4], "naks": peer.naks})
+                return
+            deadline = time.monotonic() + t3 + 10
+            for t in ths:
+                t.join(max(0.1, deadline - time.monotonic()))
+            if any(t.is_alive() for t in ths):
+                if stuck.blocked_forever([t for t in ths if t.is_alive()], watch=0.6):
+                    ctx.violation("secsi:requester-blocked-forever", {**base, "stacks": stuck.stacks(6)})
+                else:
+                    ctx.unsure("SECS-I requesters did not return in time")
+                return
+            rig.wait(lambda: sum(1 for m in rig.delivered if m["system"] in set(unsol_sent)) >= len(unsol_sent), 5.0)
+            if cyc < cycles - 1:
+                rig.pipe.peer_close()
+                if not rig.pipe.wait_closed(5.0):
+                    ctx.count("close_sequence_did_not_finish")
+                    return
+                peer.flush_rx()
+                rig.pipe.connect()
+                ctx.count("secsi.reconnect_cycles")
+    finally:
+        sig, yields, _ = inj.end()
+        ctx.count("yields_injected", yields)
+        peer.stop = True
+    ctx.count("histories.secsi")
+    ctx.case(("secsi-hist", base["role"], policy, sig), nontrivial=nthreads >= 2)
+    used = {}
+    for c in calls:
+        ctx.count("oracle.requests_checked")
+        ctx.count("secsi.requests_checked")
+        if "exception" in c:
+            ctx.violation("secsi:request-raises", {**base, "error": c["exception"]})
+            continue
+        res = c.get("result")
+        if res is None:
+            if c["tag"] not in dropped:
+                ctx.violation("secsi:timely-reply-not-returned-to-requester", {**base, "tag": c["tag"].hex(), "size": c["size"]})
+            continue
+        try:
+            payload = bytes(e5ref.decode_all(res["body"])[1])
+        except Exception:
+            payload = b""
+        rtag, serial = payload[:8], int.from_bytes(payload[8:12], "big") if len(payload) >= 12 else -1
+        if rtag != c["tag"] or (res["stream"], res["function"]) != (2, 26) or replies.get(serial) != c["tag"]:
+            ctx.violation("secsi:caller-received-foreign-reply", {**base, "own_tag": c["tag"].hex(), "reply_tag": rtag.hex(), "reply_system": res["system"]})
+        if serial in used:
+            ctx.violation("secsi:one-reply-returned-to-two-callers", {**base, "serial": serial})
+        used[serial] = c["tag"]
+    mine = set(unsol_sent)
+    got = [m["system"] for m in rig.delivered if m["system"] in mine]
+    ctx.count("oracle.unsolicited_checked", len(unsol_sent))
+    ctx.count("secsi.unsolicited_checked", len(unsol_sent))
+    if got != unsol_sent:
+        rig.confirm_absent(lambda: sum(1 for m in rig.delivered if m["system"] in mine) >= len(unsol_sent))
+        got = [m["system"] for m in rig.delivered if m["system"] in mine]
+    if got != unsol_sent:
+        missing = [x for x in unsol_sent if x not in got]
+        dup = sorted({x for x in got if got.count(x) > 1})
+        kind = "lost" if missing else "duplicated" if dup else "reordered"
+        ctx.violation(f"secsi:unsolicited-messages-{kind}", {**base, "sent": [hex(x) for x in unsol_sent[:12]], "delivered": [hex(x) for x in got[:12]]})
+    if max_in_callback[0] > 1:
+        ctx.violation("secsi:message-callbacks-overlap", {**base, "max_concurrent_callbacks": max_in_callback[0]})
+    if peer.contention:
+        ctx.count("secsi.line_contention_seen", peer.contention)
+    rig.close(5.0)
+    return sig
+
+
 def run(ctx):
     vtime.install()
     inj = sched.YieldInjector(["secsgem/common/protocol.py", "secsgem/common/protocol_dispatcher.py", "secsgem/hsms/protocol.py",
@@ -324,3 +646,15 @@ def run(ctx):
         ctx.count("interleaving.distinct_signatures", len(sigs))
     finally:
         inj.uninstall()
+    inj2 = sched.YieldInjector(["secsgem/common/protocol.py", "secsgem/common/protocol_dispatcher.py", "secsgem/secsi/protocol.py",
+                                "secsgem/common/byte_queue.py", "secsgem/common/block_send_info.py"])
+    inj2.install()
+    sigs2 = set()
+    try:
+        for i in range(10 if ctx.quick else 400):
+            sg = _secsi_history(ctx, inj2, i)
+            if sg:
+                sigs2.add(sg)
+        ctx.count("secsi.distinct_signatures", len(sigs2))
+    finally:
+        inj2.uninstall()
